@@ -5,3 +5,7 @@ package fp
 func vAssertShift(before, after *decimal, k int, left bool, id string)
 
 func vAssertSetValue(lit []byte, d *decimal, id string)
+
+func vAssertRoundedInt(a *decimal, n uint64, id string)
+
+func vAbsDecimal(d *decimal, lit []byte)
